@@ -231,7 +231,15 @@ fn dump_node(sim: &mut Sim, i: usize) -> Value {
     let closest: Vec<i64> = sim.nodes[i].driver.verif_closest_k_value_local_peers().iter().map(|p| peer_index(sim, p)).collect();
     let cands: Vec<i64> = nethooks::get_replicate_candidates(&mut sim.nodes[i].driver, &self_addr).iter().map(|p| peer_index(sim, p)).collect();
     let range = nethooks::get_responsible_distance_range(&mut sim.nodes[i].driver).map(|r| r.to_string());
-    json!({"held": held, "closest_k": closest, "candidates": cands, "range": range})
+    let (inflight, queued) = sim.nodes[i].driver.verif_fetcher_inflight_and_queued();
+    let mut infl: Vec<Value> = inflight.iter().map(|(k, t)| json!([build::key_name(&sim.reg, k.as_ref()), rtype_json(t)])).collect();
+    infl.sort_by_key(|v| v.to_string());
+    let mut qd: Vec<Value> = queued
+        .iter()
+        .map(|(k, t, p)| json!([build::key_name(&sim.reg, k.as_ref()), rtype_json(t), peer_index(sim, p)]))
+        .collect();
+    qd.sort_by_key(|v| v.to_string());
+    json!({"held": held, "closest_k": closest, "candidates": cands, "range": range, "inflight": infl, "queued": qd})
 }
 
 fn snapshot(sim: &mut Sim, eff: Value, log: Vec<Value>) -> Value {
